@@ -1,6 +1,7 @@
 package an
 
 import (
+	"fmt"
 	"go/constant"
 	"go/token"
 	"go/types"
@@ -583,5 +584,79 @@ func DerivedV(leaf VPat) VPat {
 	return VPat{"f(" + leaf.Desc + ", constants)", func(v ssa.Value) bool {
 		hit := false
 		return rec(v, 0, &hit) && hit
+	}}
+}
+
+// MulConstV matches inner * k (either operand order), looking through conversions of the product's operands.
+func MulConstV(inner VPat, k int64) VPat {
+	return VPat{fmt.Sprintf("%s * %d", inner.Desc, k), func(v ssa.Value) bool {
+		bin, ok := stripConv(v).(*ssa.BinOp)
+		if !ok || bin.Op != token.MUL {
+			return false
+		}
+		for _, o := range [][2]ssa.Value{{bin.X, bin.Y}, {bin.Y, bin.X}} {
+			if c, isC := ConstInt(o[1]); isC && c == k && (inner.M(o[0]) || inner.M(stripConv(o[0]))) {
+				return true
+			}
+		}
+		return false
+	}}
+}
+
+// NowUnixV matches time.Now().Unix() (optionally through UTC()).
+func NowUnixV() VPat {
+	return VPat{"time.Now().Unix()", func(v ssa.Value) bool {
+		c, ok := stripConv(v).(*ssa.Call)
+		if !ok {
+			return false
+		}
+		f := c.Common().StaticCallee()
+		if f == nil || f.Name() != "Unix" || f.Pkg == nil || f.Pkg.Pkg.Path() != "time" || len(c.Common().Args) != 1 {
+			return false
+		}
+		return NowV().M(c.Common().Args[0])
+	}}
+}
+
+// NowV matches time.Now() (optionally .UTC()), also when loaded from a local the call result was stored in.
+func NowV() VPat {
+	return VPat{"time.Now()", func(v ssa.Value) bool {
+		for i := 0; i < 4; i++ {
+			v = stripConv(v)
+			if u, ok := v.(*ssa.UnOp); ok && u.Op == token.MUL {
+				if a, ok := u.X.(*ssa.Alloc); ok {
+					var val ssa.Value
+					n := 0
+					for _, ref := range *a.Referrers() {
+						if st, ok := ref.(*ssa.Store); ok && st.Addr == ssa.Value(a) {
+							val = st.Val
+							n++
+						}
+					}
+					if n == 1 {
+						v = val
+						continue
+					}
+				}
+				return false
+			}
+			c, ok := v.(*ssa.Call)
+			if !ok {
+				return false
+			}
+			f := c.Common().StaticCallee()
+			if f == nil || f.Pkg == nil || f.Pkg.Pkg.Path() != "time" {
+				return false
+			}
+			if f.Name() == "Now" {
+				return true
+			}
+			if (f.Name() == "UTC" || f.Name() == "Local") && len(c.Common().Args) == 1 {
+				v = c.Common().Args[0]
+				continue
+			}
+			return false
+		}
+		return false
 	}}
 }
